@@ -257,7 +257,7 @@ class RequestFileTransfer(BaseService):
             todecode = bytearray(b'\x00\x00\x00\x00\x00\x00\x00\x00')
             for i in range(1, lfid + 1):
                 todecode[-i] = response.data[cursor + lfid - i]
-            response.service_data.max_length = struct.unpack('>q', todecode)[0]
+            response.service_data.max_length = struct.unpack('>Q', todecode)[0]
             cursor += lfid
 
         if has_dfi:
@@ -293,7 +293,7 @@ class RequestFileTransfer(BaseService):
                 todecode = bytearray(b'\x00\x00\x00\x00\x00\x00\x00\x00')
                 for i in range(1, fsodipl + 1):
                     todecode[-i] = response.data[cursor + fsodipl - i]
-                uncompressed_size = struct.unpack('>q', todecode)[0]
+                uncompressed_size = struct.unpack('>Q', todecode)[0]
                 cursor += fsodipl
             else:
                 uncompressed_size = None
@@ -305,7 +305,7 @@ class RequestFileTransfer(BaseService):
                 todecode = bytearray(b'\x00\x00\x00\x00\x00\x00\x00\x00')
                 for i in range(1, fsodipl + 1):
                     todecode[-i] = response.data[cursor + fsodipl - i]
-                compressed_size = struct.unpack('>q', todecode)[0]
+                compressed_size = struct.unpack('>Q', todecode)[0]
                 cursor += fsodipl
             else:
                 compressed_size = None
@@ -325,7 +325,7 @@ class RequestFileTransfer(BaseService):
             for i in range(1, fposl + 1):
                 todecode[-i] = response.data[cursor + fposl - i]
 
-            response.service_data.fileposition = struct.unpack('>q', todecode)[0]
+            response.service_data.fileposition = struct.unpack('>Q', todecode)[0]
             cursor += fposl
 
         if len(response.data) > cursor:
